@@ -82,6 +82,7 @@ fn ref_pk(bytes: &[u8], via: &str) -> Pt {
 /// C14 oracles shared by every randomised library call: the scalar actually used (recovered from
 /// the call's output by the reference) was offered in this call, is in [1, n-1], is new.
 fn c14_used(w: &mut World, site: &str, log: &RngLog, used: Option<&BigUint>, case: u64) {
+    w.offered(&log.offered);
     let key = |class: &str| json!({"entry": site, "class": class, "outcome": "Ok"});
     w.check("C14", "drew-fresh", !log.offered.is_empty(), case, key("no-draw"), || {
         format!("{site}: completed without drawing from the random source")
